@@ -279,6 +279,11 @@ class FileSystem(object):
         # Remove leading '/' if any
         path = path.lstrip(path_sep)
 
+        # A relative path cannot go above the sandbox root
+        pardir = _convert(os.path.pardir)
+        while path == pardir or path.startswith(pardir + path_sep):
+            path = path[len(pardir):].lstrip(path_sep)
+
         base_path = os.path.abspath(_convert(self.base_path))
         out_path = os.path.join(base_path, path)
         assert out_path.startswith(base_path + path_sep)
